@@ -36,7 +36,8 @@ Verdict(ev) ==
          LET msg == HB(ev.msg)  dst == HB(ev.dst)
              want == IF ev.suite = "RO" THEN HashToCurveRO(msg, dst) ELSE EncodeToCurveNU(msg, dst) IN
          << /\ IF want[1] = "err" THEN ~ev.ok ELSE ev.ok /\ ev.out = EncUncompressedH(want[2]) /\ ValidPoint(want[2])
-            /\ ev.again = ev.out,                                                      \* a pure function of its inputs
+            /\ ev.again = ev.out                                                       \* a pure function of its inputs
+            /\ (Has(ev, "args_same") => ev.args_same),                                 \* ... that writes nothing the caller owns
             (IF ev.suite = "RO" THEN {"suite_ro"} ELSE {"suite_nu"}) \cup DstClasses(dst) \cup {"pure"}
             \cup (IF Len(msg) = 0 THEN {"msg_empty"} ELSE {}) \cup (IF Len(msg) > 128 THEN {"msg_long"} ELSE {})
             \cup (IF Has(ev, "vector") /\ ev.vector THEN {"suite_vector"} ELSE {})
